@@ -287,6 +287,27 @@ func fmInfeasible(cs []Ineq, budget int) (infeasible bool, exhausted bool) {
 
 // entails reports whether facts ⊨ goal (goal: L ≤ 0), i.e. facts ∧ (L ≥ 1) is infeasible.
 func entails(facts []Ineq, goal Ineq) bool {
+	if goal.L.isConst() {
+		if goal.L.K <= 0 {
+			return true
+		}
+	}
+	// fast path: a single fact with the same coefficients and a constant at least as strong
+	for _, f := range facts {
+		if len(f.L.C) != len(goal.L.C) || f.L.K < goal.L.K {
+			continue
+		}
+		same := true
+		for a, c := range goal.L.C {
+			if f.L.C[a] != c {
+				same = false
+				break
+			}
+		}
+		if same {
+			return true
+		}
+	}
 	neg, ok := Lin{}.addScaled(goal.L, -1)
 	if !ok {
 		return false
